@@ -70,6 +70,32 @@ STRENGTHENED = {
  "C19-2c": "two concurrent Sends sharing a scratch buffer under a read lock: reported by C17 (scenario S5 and the race pass)",
  "C20-1c": "missed at first (no track names): track names that coincide with names the export uses itself ('bars', 'track-0') added to C20",
  "C20-2c": "missed at first (channel always equal to track): the same voice (channel, key) doubled on two tracks and ending on the same tick added to C20",
+ # round 4
+ "C02-2d": "missed at first (unknown chunk types far from 'MTrk'): shapes whose unknown chunk type differs from MTrk / MThd in exactly one position or only in case added to C02",
+ "C05-1d": "missed at first in C05 (reported by C02's two readers): two proper prefixes read by two threads switched inside Read calls, all schedules with at most two switches, added to C05; the read families of C01/C02 also run as two threads with switch points at every access to package-level state",
+ "C05-2d": "missed at first (sources never answered (0, nil)): prefixes are now read through four kinds of source (memory, one byte per call, zero-byte reads, last bytes with EOF) in C05; zero-byte reads at every offset in C09 (which found a genuine defect in ReadVarLength, fixed in /repo 7d63c58)",
+ "C06-2d": "missed at first (no reader decoded more than a few hundred messages): four streams of 30000 messages on one reader added to C06; the product searches got a transition cap (a change that makes the decoder's state unbounded no longer costs hours)",
+ "C07-1d": "missed at first (loopback with default options only): one message of every constructor under every option set x sysex buffer sizes 0,1,2,3,4,64 added to C07",
+ "C08-1d": "missed at first (IsOneOf was only called): IsOneOf must agree with Is for every category, for all categories together, for the own type and for no argument, in both message flavours",
+ "C09-1d": "missed at first (no variable-length quantity above four bytes): five- and six-byte quantities as delta, meta length and sysex length added to C09",
+ "C09-2d": "missed at first (truncated inputs came from the ten smallest files only): every truncation of every single-event file (sysex packets, escapes, long texts) added to C09",
+ "C10-1d": "missed at first (WriteFile only onto healthy paths): WriteFile onto /dev/full (through a symbolic link), into a missing directory and onto a directory, for eight file sizes, added to C10",
+ "C10-2d": "missed at first (no bytes after the end-of-track inside a chunk): padded last/earlier track, unknown chunk and garbage after the last track added to C10's read-fault inputs",
+ "C11-1d": "missed at first (six tempo values): every 61st (thorough: every) 24-bit tempo value as two events with neighbouring values, queried a thousand quarter notes later",
+ "C11-2d": "missed at first (six tempo values): every 61st (thorough: every) 24-bit tempo value as a single event queried at 3000 quarter notes, 2^20 and 2^31-1 ticks",
+ "C12-1d": "missed at first (the schedule was the library's own TimeAt, and there were always two tempo changes): C12 now integrates the tempo events found by the reference parser itself, and plays files with a single tempo change after the start (faster / slower than the default)",
+ "C13-1d": "missed at first (a recording was the file's first use): recordings into a file that already holds a track and has been written, or comes from the reader, added to C13",
+ "C13-2d": "missed at first in C13 (reported by C06's chunk search): deliveries that are not whole messages (message cut short, data bytes alone, unterminated sysex) added to C13's alphabet",
+ "C14-1d": "missed at first (sender-legal streams only, short chunks): C14 now compares the listeners on every byte stream (product search without the sender restriction) and on all streams up to length 6/8 over 8 byte classes sent in one chunk and cut in two",
+ "C14-2d": "missed at first (FD was outside the sender-legal domain): see C14-1d",
+ "C15-1d": "missed at first (all destinations given): every nil/non-nil combination of destinations for key signature, time signature, meter and SMPTE offset accessors added to C15",
+ "C15-2d": "missed at first (pure functions, no seam to switch at): source instrumentation 'globals' (tools/rewrite) puts a scheduling point in front of every statement that touches mutable package-level state; every pair of constructor calls runs as two threads under all schedules with at most two preemptions (harness/concpairs)",
+ "C17-2d": "missed at first (no Listen while a listener is active): scenario S10 added to C17",
+ "C18-1d": "missed at first (one field swept at a time): all five locate fields together over 21 (thorough 71) boundary values, and all pairs of fields over the full 7-bit range on three bases",
+ "C18-2d": "see C18-1d",
+ "C19-1d": "missed at first (time stamps within int32 and canonical): out-of-range, very long and zero-padded decimal time stamps added to C19; a purely decimal time stamp outside 32 bits now counts as malformed",
+ "C19-2d": "missed at first (five substituted characters, short lines): every byte value substituted at positions around every power-of-two length of lines carrying 1..300 message bytes",
+ "C20-1d": "missed at first (a song was never changed after an export): chain export - edit (bar signature, resolution, added bar, moved event) - export, both orders of the two exports, against the bar model read off the public fields",
 }
 rows = []
 for d in sorted(glob.glob(V + "/seeded/*/meta.json")):
